@@ -185,6 +185,44 @@ def canonical_iteration_forms(f):
   return changed[0]
 
 
+BOOL_RETURN_ANCHORS = (
+    'tbrmatchedmarkets.TBRMatchedMarkets.design_within_constraints',
+)
+
+
+def boolean_returns(f):
+  """return E  ->  if E: return True; return False   for predicates whose rules are path rules over Boolean returns
+  (E is evaluated once in both forms; the caller only uses the truth value)."""
+  node = f.node
+  changed = [False]
+
+  def block(stmts):
+    out = []
+    for st in stmts:
+      if isinstance(st, (ast.FunctionDef, ast.ClassDef, ast.AsyncFunctionDef)):
+        out.append(st)
+        continue
+      for fld in ('body', 'orelse', 'finalbody'):
+        if hasattr(st, fld) and isinstance(getattr(st, fld), list):
+          setattr(st, fld, block(getattr(st, fld)))
+      if isinstance(st, ast.Return) and st.value is not None and not (isinstance(st.value, ast.Constant) and isinstance(st.value.value, bool)) \
+          and isinstance(st.value, (ast.BoolOp, ast.Compare, ast.UnaryOp, ast.Call, ast.Name)):
+        t = ast.Return(value=ast.Constant(value=True), lineno=st.lineno, col_offset=st.col_offset)
+        e = ast.Return(value=ast.Constant(value=False), lineno=st.lineno, col_offset=st.col_offset)
+        out.append(ast.If(test=st.value, body=[t], orelse=[e], lineno=st.lineno, col_offset=st.col_offset))
+        changed[0] = True
+        continue
+      out.append(st)
+    return out
+  node.body = block(node.body)
+  if changed[0]:
+    ast.fix_missing_locations(node)
+    for n in ast.walk(node):
+      for ch in ast.iter_child_nodes(n):
+        ch._parent = n
+  return changed[0]
+
+
 UNROLL_ANCHORS = (
     'tbrmmdesignparameters.TBRMMDesignParameters.__post_init__',
 )
@@ -430,6 +468,16 @@ def lower_repo(repo):
       f = f.nested.get(p) if f is not None else None
     if f is not None and lower_function(f):
       done.append(q)
+  for q in BOOL_RETURN_ANCHORS:
+    f = repo.functions.get(q)
+    if f is None:
+      continue
+    saved = (f.node, f.nested, getattr(f, '_private_clone', False))
+    _cloned(f)
+    if boolean_returns(f):
+      done.append('%s: Boolean returns' % q)
+    else:
+      f.node, f.nested, f._private_clone = saved
   for q in UNROLL_ANCHORS:
     f = repo.functions.get(q)
     if f is None:
